@@ -284,3 +284,5 @@ def run(ctx):
     ctx.guard(c09.r09_4)
     # forward and reverse solves must walk mirror-image grids: no left-over step of rounding-error length (rule of C15)
     ctx.guard(c15.r15_3)
+    from . import c12
+    ctx.guard(c12.r12_5)        # time axis in the state's dtype (see C15)
